@@ -119,15 +119,23 @@ def check_c12(tier, only_cases=None):
     trace = os.path.join(wd, "c12.trace")
     run_harness("wire", ["c12", cpath], trace)
     stats, viols = validate_trace("WireTrace", trace, prop, f"{prop}-{tier}", TRACE_CFG, nchunks=2, independent=True)
+    agent = {}
+    if only_cases is None:
+        # "usable with a conforming server", over the real transports: the agent against a router that implements NETCONF
+        # 1.1 too and frames as RFC 6242 requires for whatever the two hellos negotiate
+        import check_agent
+        agent = check_agent.side_run(prop, tier, verdict, any_rule=True)
     return finish(prop, tier, t0, verdict, stats, viols, gr,
-                  {"samples": [cases[0], cases[len(cases) // 2], cases[-1]], "hello_cases": len(cases), "exhaustive": True,
+                  {"agent_against_a_router_with_netconf_1.1": agent, "samples": [cases[0], cases[len(cases) // 2], cases[-1]], "hello_cases": len(cases), "exhaustive": True,
                    "rule": "server hellos: every subset of {base:1.0, base:1.1} x 9 session-id shapes x default/prefixed namespace x hello "
                            "before/after the client's own, plus malformed hellos; each fed to a real Session establishment over the "
                            "in-memory transport; TLC checks established <=> (well-formed, valid id, common base version with what the client "
                            "really advertised), highest common version, reported id/capabilities, and the framing of the first request "
                            "against RFC 6242 4.1; non-trivial = session established"},
                   ["in-memory transport delivers whole messages, so only the client's outgoing framing is observable here; "
-                   "the conforming-server part over real transports is part of the C06/C07 driver"],
+                   "over the real transports (TLS, local cli child) the agent runs against a fake router that advertises :base:1.0 and :base:1.1 and "
+                   "uses chunked framing (chunks of 1, 7 and the remaining bytes, a line of ## inside the data) exactly when the client's hello "
+                   "advertised :base:1.1 as well"],
                   lambda k: cases[k] if isinstance(k, int) and k < len(cases) else None, trace)
 
 # ------------------------------------------------------------------------------------------
@@ -206,7 +214,7 @@ def check_c14(tier, only_cases=None):
     trace = os.path.join(wd, "c14.trace")
     # the code under test may take the whole process down (stack overflow, abort): that is a result, not a tool
     # error - the case without an output line is recorded as aborted and the run goes on behind it
-    done, aborted = 0, 0
+    done, aborted, notrun = 0, 0, 0
     with open(trace, "w") as tf:
         while done < len(cases):
             part = os.path.join(wd, f"c14.part{aborted}")
@@ -216,12 +224,21 @@ def check_c14(tier, only_cases=None):
             tf.writelines(lines); done += len(lines)
             if p.returncode == 0:
                 break
-            if p.returncode > 0 or aborted >= 20:
+            if p.returncode > 0 and p.returncode != 97:
                 raise ToolError(f"harness wire c14 failed rc={p.returncode}: {p.stderr[-1500:]}")
             if done < len(cases):
-                tf.write(json.dumps({"ev": "c14", "case": done, "c": cases[done], "gid": -1, "glen": 0, "panic": True,
-                                     "abort": f"the process was killed by signal {-p.returncode}: " + p.stderr.strip()[-160:]}) + "\n")
+                if p.returncode == 97:
+                    # the harness's watchdog: the thread that polls the session never came back from this case
+                    tf.write(json.dumps({"ev": "c14", "case": done, "c": cases[done], "gid": -1, "glen": 0, "hang": True,
+                                         "abort": p.stderr.strip()[-200:]}) + "\n")
+                else:
+                    tf.write(json.dumps({"ev": "c14", "case": done, "c": cases[done], "gid": -1, "glen": 0, "panic": True,
+                                         "abort": f"the process was killed by signal {-p.returncode}: " + p.stderr.strip()[-160:]}) + "\n")
                 done += 1; aborted += 1
+            if aborted >= 8:
+                # every one of these is a violation already; the cases behind them are not run
+                notrun = len(cases) - done
+                break
     stats, viols = validate_trace("WireTrace", trace, prop, f"{prop}-{tier}", TRACE_CFG, nchunks=8, independent=True)
     outcomes = {}
     for l in open(trace):
@@ -233,7 +250,7 @@ def check_c14(tier, only_cases=None):
         import check_agent
         agent = check_agent.side_run(prop, tier, verdict)
     return finish(prop, tier, t0, verdict, stats, viols, gr,
-                  {"agent_readers": agent, "samples": [cases[0], cases[len(cases) // 2], cases[-1]], "mutation_cases": len(cases), "outcome_histogram": outcomes,
+                  {"agent_readers": agent, "samples": [cases[0], cases[len(cases) // 2], cases[-1]], "mutation_cases": len(cases), "cases_not_run_after_8_that_killed_or_blocked_the_process": notrun, "outcome_histogram": outcomes,
                    "exhaustive": False,
                    "rule": "mutation scripts enumerated by TLC over 7 message templates: truncation / byte flips (3 masks) / invalid UTF-8 at 9 "
                            "positions, splices of every slice pair, duplicated element, 40-digit integers, wrong namespace, 3000-deep nesting, "
